@@ -190,8 +190,8 @@ func (store *BaseStore[E]) addSymbol(name string, public bool, symbol EntitySymb
 	return symbol
 }
 
-func (store *BaseStore[E]) inheritMapSymbol(symbol *entityMapSymbol) {
-	store.mapSymbols[symbol.key] = symbol
+func (store *BaseStore[E]) inheritMapSymbol(name string, symbol *entityMapSymbol) {
+	store.mapSymbols[name] = symbol
 }
 
 func (store *BaseStore[E]) GrantSymbols(child ConfigurableStore) {
@@ -199,7 +199,7 @@ func (store *BaseStore[E]) GrantSymbols(child ConfigurableStore) {
 		child.addSymbol(name, store.IsPublicSymbol(name), value)
 	}
 	for name, value := range store.mapSymbols {
-		child.inheritMapSymbol(value)
+		child.inheritMapSymbol(name, value)
 		if store.IsPublicSymbol(name) {
 			child.MakeSymbolPublic(name)
 		}
